@@ -105,7 +105,7 @@ def reverse_keys(x):
 class C13(InputProp):
     id = "C13"
     rule = ("every metabook over 24 articles + 14 chapters up to the item bound (x optional-field presence for <=2 items); per metabook: "
-            "round trip, fixed point, id invariance under 6 serialisation variants, 5 single-field request mutations, default-sharing probe, "
+            "round trip, fixed point, id invariance under 7 serialisation variants, 5 single-field request mutations, default-sharing probe, "
             "every history load / modify the loaded copy (<= 2 of 5 modifications) / load + identify again on the same text; "
             "across the space: id injectivity by grouping; distinct = distinct collection ids")
     assumptions = ("titles/revisions/fields from small fixed domains",)
@@ -117,11 +117,41 @@ class C13(InputProp):
         from mwlib.utils import myjson
         self.metabook, self.nserve, self.serve, self.myjson = metabook, nserve, serve, myjson
         small = Product(Seqs(ITEMS, 2), FIELDSETS, name="small-x-fields")
+        # pairs of metabooks that differ in ONE string field, and there only in blanks (their number or their position)
+        blanks = [("New York", "NewYork"), ("a b", "ab"), ("a  b", "a b"), ("a reader", "area der"), ("ab", " ab"), ("Ä b c", "Äb c")]
+        pairs = []
+        for v1, v2 in blanks:
+            art = lambda t, r=None, d=None: ("A", t, r, d)  # noqa
+            none = (None, None, None)
+            pairs.append((((art(v1),), none), ((art(v2),), none)))                                  # article title
+            pairs.append((((art("T", "1", v1),), none), ((art("T", "1", v2),), none)))              # display title
+            pairs.append((((("C", v1, (art("T"),)),), none), ((("C", v2, (art("T"),)),), none)))    # chapter title
+            pairs.append((((("C", "c", (art(v1),)),), none), ((("C", "c", (art(v2),)),), none)))    # article inside a chapter
+            pairs.append((((art("T"),), (v1, None, None)), ((art("T"),), (v2, None, None))))        # collection title
+            pairs.append((((art("T"),), (None, v1, None)), ((art("T"),), (None, v2, None))))        # subtitle
+            pairs.append((((art("T"),), (None, None, v1)), ((art("T"),), (None, None, v2))))        # editor
+        pairfam = Items(pairs, name="pair")
         if tier == "quick":
-            self.space = Concat(small, name="mb")
+            self.space = Concat(small, pairfam, name="mb")
         else:
             big = Product(Seqs(ITEMS, 3, minlen=3), [(None, None, None), (None, None, ("lic", "ed"))], name="three-items")
-            self.space = Concat(small, big, name="mb")
+            self.space = Concat(small, big, pairfam, name="mb")
+
+    def with_nulls(self, x):
+        if isinstance(x, list):
+            return [self.with_nulls(y) for y in x]
+        if not isinstance(x, dict):
+            return x
+        out = {k: self.with_nulls(v) for k, v in x.items()}
+        cls = {"collection": self.metabook.Collection, "article": self.metabook.Article, "chapter": self.metabook.Chapter}.get(str(x.get("type", "")).lower())
+        if cls is not None:
+            for k in dir(cls):
+                dv = getattr(cls, k)
+                if k.startswith("_") or k == "type" or callable(dv) or isinstance(dv, property):
+                    continue
+                if k not in out or out[k] == dv:
+                    out[k] = None  # absent, or present with its default value: both are "not given"
+        return out
 
     def cid(self, params, which="nserve"):
         old = sys.stdout
@@ -159,6 +189,10 @@ class C13(InputProp):
         s3 = self.myjson.dumps(mb)
         if plain(self.myjson.loads(s3)) != p0:
             viol.append({"sig": "roundtrip-unequal-myjson", "msg": "myjson.loads(myjson.dumps(m)) differs"})
+        mn = self.myjson.loads(json.dumps(self.with_nulls(p0)))
+        dn = mn.dumps()
+        if self.myjson.loads(dn).dumps() != dn:
+            viol.append({"sig": "not-fixed-point:explicit-nulls", "msg": "a metabook loaded from a text with explicit nulls for its absent fields is not a fixed point of dumps/loads: %r" % (dn[:300],)})
         # collection id: invariance under serialisation variants
         base = dict(COORDS)
         variants = {
@@ -169,6 +203,8 @@ class C13(InputProp):
             "non-ascii": json.dumps(p0, ensure_ascii=False),
             "reserialised": s2 or s,
             "myjson": s3,
+            # an absent optional field spelled as an explicit null (what a PHP client's json_encode produces)
+            "explicit-nulls": json.dumps(self.with_nulls(p0)),
         }
         ids = {}
         for which in ("nserve", "serve"):
@@ -235,11 +271,12 @@ class C13(InputProp):
     def run_pair(self, spec):
         a, b = spec
         ma, mb = build(_t(a)), build(_t(b))
-        ia = self.cid(dict(COORDS, metabook=ma.dumps()))
-        ib = self.cid(dict(COORDS, metabook=mb.dumps()))
         viol = []
-        if ia == ib and plain(ma) != plain(mb):
-            viol.append({"sig": "id-collision", "msg": "two different metabooks share collection id %s" % ia})
+        for which in ("nserve", "serve"):
+            ia = self.cid(dict(COORDS, metabook=ma.dumps()), which)
+            ib = self.cid(dict(COORDS, metabook=mb.dumps()), which)
+            if ia == ib and plain(ma) != plain(mb) and not viol:
+                viol.append({"sig": "id-collision", "msg": "two different metabooks share collection id %s (%s): %r and %r" % (ia, which, plain(ma), plain(mb))})
         return {"key": (ia, ib), "viol": viol}
 
     def finish(self, agg):
